@@ -1,6 +1,7 @@
 """Shared flows for the parser properties C01, C02, C04, C05, C07."""
 import json
 import os
+import sys
 import re
 
 import vlib
@@ -238,15 +239,37 @@ def report_rejections(chk, rejected, prefix):
 LIMITS_C01 = [(-1, -1), (0, -1), (1, 0), (2, 1), (3, 2), (-1, 0), (-1, 1)]
 
 
-def token_string_cases(chk, cfg_names, out_path, entries, limits, trace=False, every=1, extra_limits=(), extra_every=2):
-    """TLC (MC_Grammar) enumerates token strings; write parse-run cases for entries x limits."""
+def token_string_cases(chk, cfg_names, out_path, entries, limits, trace=False, every=1, extra_limits=(), extra_every=2, cap=None):
+    """TLC (MC_Grammar) enumerates token strings; write parse-run cases for entries x limits.
+
+    `cap` bounds the number of cases written (default: none in the quick tier, 2.5 million in the thorough tier, split
+    evenly over the configurations): strings no longer than the QUICK bound of the configuration are always kept
+    (that part stays exhaustive), the longer ones are taken with a fixed stride."""
+    import math
+    sys.path.insert(0, vlib.SPEC)
+    from gen_cfgs import TABLE
     suffix = "_q" if chk.quick else "_t"
+    if cap is None and not chk.quick:
+        cap = 2500000
     n_cases = 0
     n_strings = 0
     with open(out_path, "w", encoding="utf8") as fo:
         for name in cfg_names:
             cases = os.path.join(chk.work, "tok_cases.ndjson")
             n, r = tlc_cases(chk, "MC_Grammar", "MC_Grammar_%s%s.cfg" % (name, suffix), cases, timeout=6000)
+            stride, keep_len = 1, 0
+            if cap:
+                per = len(entries) * (len(limits) + len(extra_limits) / float(extra_every))
+                budget = cap / float(len(cfg_names))
+                if n / float(every) * per > budget:
+                    stride = int(math.ceil(n / float(every) * per / budget))
+                    minlen = None
+                    with open(cases) as f:
+                        for line in f:
+                            l = len(json.loads(line)[1])
+                            minlen = l if minlen is None else min(minlen, l)
+                    keep_len = (minlen or 0) + TABLE[name][3]
+                    chk.note("%s%s: %d strings, stride %d beyond %d tokens (cap %d cases)" % (name, suffix, n, stride, keep_len, cap))
             k = 0
             with open(cases) as f:
                 for line in f:
@@ -254,6 +277,8 @@ def token_string_cases(chk, cfg_names, out_path, entries, limits, trace=False, e
                     if k % every:
                         continue
                     toks = json.loads(line)[1]
+                    if stride > 1 and len(toks) > keep_len and (k // every) % stride:
+                        continue
                     text = render(toks)
                     n_strings += 1
                     lims = list(limits) + (list(extra_limits) if n_strings % extra_every == 0 else [])
